@@ -12,9 +12,11 @@ from mc import env, mibspec, pysnmp_rec
 BOUNDS = {
     'quick': 'A: all labelled trees with <=3 nodes x all module partitions (<=2 modules) x all declaration orders; '
              'B: trees <=2 nodes x 7 spellings x 2 name styles per node x 2 orders x 1-2 modules; '
-             'C: chains <=2 nodes x 10 node kinds per node; both back ends everywhere',
+             'C: chains <=2 nodes x 10 node kinds per node; F: 2 x 1440 declaration orders of two tables (one augmenting the other); '
+             'both back ends everywhere',
     'thorough': 'A: all labelled trees with <=4 nodes x all partitions into <=3 modules x all declaration orders; '
-                'B: trees <=3 nodes, every node independently in 7 spellings x 2 name styles; C: chains <=3 nodes x 10 kinds',
+                'B: trees <=3 nodes, every node independently in 7 spellings x 2 name styles; C: chains <=3 nodes x 10 kinds; '
+                'F: all 5040 declaration orders x 3 placements of the SEQUENCE types',
 }
 ASSUMPTIONS = ['base modules SNMPv2-SMI/-TC/-CONF are the hand-written stand-ins in /verif/basemibs',
                'module sets are well formed by construction (unique names, every reference resolves)']
@@ -462,4 +464,56 @@ class ArcZero(object):
         return observe(mods, truth, {'zeroNode': 'value', 'subject': case['kind']}, 'C01|E|arc-zero|%s' % case['kind'])
 
 
-FAMILIES = [Shapes(), Spellings(), Kinds(), SameNames(), ArcZero()]
+class TableOrders(object):
+    name = 'F-table-and-augmentation-orders'
+    describe = ('a table, its row, a column, a row of a second table that AUGMENTS the first row and its column, with the two SEQUENCE '
+                'types first / last / in between: every declaration order of the OID-bearing declarations (a row before its table, '
+                'an augmenting row before the augmented one ...)')
+
+    def blocks(self, tier):
+        return [{'types': t, 'head': h} for t in (('first', 'last', 'mid') if tier == 'thorough' else ('first', 'last'))
+                for h in range(7)]
+
+    def cases(self, block, tier):
+        for perm in itertools.permutations(range(7)):
+            if perm[0] != block['head']:
+                continue
+            if tier != 'thorough' and perm[6] != 6 and perm[0] != 6:
+                continue   # quick: the second table itself first or last, all orders of the other six
+            yield {'types': block['types'], 'perm': list(perm)}
+
+    def run_case(self, case):
+        def ot(name, syntax, oid, access='not-accessible', **kw):
+            return dict({'k': 'ot', 'name': name, 'syntax': syntax, 'access': ('MAX-ACCESS', access), 'status': 'current',
+                         'descr': 'd', 'oid': oid}, **kw)
+        items = [ot('aTable', ('seqof', 'AEntry'), ['enterprises', 4242, 1]),
+                 ot('aEntry', ('ref', 'AEntry'), ['aTable', 1], index=[(0, 'aIdx')]),
+                 ot('aIdx', ('simple', 'Integer32'), ['aEntry', 1]),
+                 ot('aVal', ('simple', 'Integer32'), ['aEntry', 2], 'read-only'),
+                 ot('bEntry', ('ref', 'BEntry'), ['bTable', 1], augments='aEntry'),
+                 ot('bVal', ('simple', 'Integer32'), ['bEntry', 1], 'read-only'),
+                 ot('bTable', ('seqof', 'BEntry'), ['enterprises', 4242, 2])]
+        types = [{'k': 'type', 'name': 'AEntry', 'syntax': ('seq', [('aIdx', 'Integer32'), ('aVal', 'Integer32')])},
+                 {'k': 'type', 'name': 'BEntry', 'syntax': ('seq', [('bVal', 'Integer32')])}]
+        decls = [items[i] for i in case['perm']]
+        if case['types'] == 'first':
+            decls = types + decls
+        elif case['types'] == 'last':
+            decls = decls + types
+        else:
+            decls = decls[:3] + types + decls[3:]
+        e = ENTERPRISES + (4242,)
+        truth = {'ALPHA-MIB': {'aTable': e + (1,), 'aEntry': e + (1, 1), 'aIdx': e + (1, 1, 1), 'aVal': e + (1, 1, 2),
+                               'bTable': e + (2,), 'bEntry': e + (2, 1), 'bVal': e + (2, 1, 1)}}
+        mods = [{'name': 'ALPHA-MIB', 'imports': [('SNMPv2-SMI', ['enterprises', 'OBJECT-TYPE', 'Integer32'])], 'decls': decls}]
+        pos = dict((items[i]['name'], n) for n, i in enumerate(case['perm']))
+        feats = []
+        if pos['aEntry'] < pos['aTable'] or pos['bEntry'] < pos['bTable']:
+            feats.append('row-before-table')
+        if pos['bEntry'] < pos['aEntry']:
+            feats.append('augmenting-row-before-augmented')
+        sig = 'C01|F|types-%s|%s' % (case['types'], '+'.join(feats) or 'usual')
+        return observe(mods, truth, dict((n, 'ot') for n in truth['ALPHA-MIB']), sig)
+
+
+FAMILIES = [Shapes(), Spellings(), Kinds(), SameNames(), ArcZero(), TableOrders()]
